@@ -625,17 +625,23 @@ pub enum WriteMessage {
     RoomMutation(RoomMutationWriteQuery, AuthSender),
     MutationStream(MutationQuery, StreamSender<Result<MutationQuery>>),
     RoomMutationStream(RoomMutationStreamWriteQuery, AuthSender),
+    Nodes(Vec<NodeToInsert>, Vec<Uid>, ReplySender<Result<Vec<Uid>>>),
+    Edges(Vec<Edge>, Vec<Uid>, ReplySender<Result<Vec<Uid>>>),
+    DeleteEdges(Vec<EdgeDeletionEntry>, ReplySender<Result<()>>),
+    DeleteNodes(Vec<NodeDeletionEntry>, ReplySender<Result<()>>),
 }
+/// the message was handed to the batch writer: a fact only the writer's contract establishes
+pub uninterp spec fn sent_to_writer(m: WriteMessage) -> bool;
 /// the batch writer: what it REQUIRES of a local write is the property's "refused operations change nothing" seen from the caller
 pub struct BufferedDatabaseWriter { x: u8 }
 pub open spec fn wm_deletion(m: WriteMessage) -> DeletionQuery { match m { WriteMessage::Deletion(q, _) => q, _ => arbitrary() } }
-pub open spec fn wm_query(m: WriteMessage) -> MutationQuery { match m { WriteMessage::Mutation(q, _) => q, WriteMessage::RoomMutation(q, _) => q.mutation_query, WriteMessage::MutationStream(q, _) => q, WriteMessage::RoomMutationStream(q, _) => q.mutation_query, WriteMessage::Deletion(_, _) => arbitrary() } }
+pub open spec fn wm_query(m: WriteMessage) -> MutationQuery { match m { WriteMessage::Mutation(q, _) => q, WriteMessage::RoomMutation(q, _) => q.mutation_query, WriteMessage::MutationStream(q, _) => q, WriteMessage::RoomMutationStream(q, _) => q.mutation_query, _ => arbitrary() } }
 // E8 cut: `for room in rooms { room_list.insert(room.id); }` (the ids of the rooms changed by the mutation)
 #[verifier::external_body]
 pub fn cut_collect_room_ids(room_list: &mut HashSet<Uid>, rooms: Vec<Room>) { unimplemented!() }
 impl BufferedDatabaseWriter {
     #[verifier::external_body]
-    pub async fn send(&self, msg: WriteMessage) -> (r: std::result::Result<(), SendErr>) { unimplemented!() }
+    pub async fn send(&self, msg: WriteMessage) -> (r: std::result::Result<(), SendErr>) ensures sent_to_writer(msg) { unimplemented!() }
 }
 
 //@ extract src/database/authorisation_service.rs :: impl AuthorisationService / fn process_message as AuthorisationService::lifted_local_mutation
@@ -771,6 +777,126 @@ pub closed spec fn edge_ok(room: Room, edge: Edge, entity_name: Seq<char>) -> bo
             final(write_nodes)@ == (if spec_validate_node(*auth, node) { old(write_nodes)@.push(node) } else { old(write_nodes)@ }),
             final(invalid_node)@ == (if spec_validate_node(*auth, node) { old(invalid_node)@ } else { old(invalid_node)@.push(node.id) }),
 //@ end
+
+// ---- the four ingestion arms of the authorisation actor as wholes (E9 lift of the arm, E14 shell around the lifted loop bodies): what is
+// handed to the batch writer is exactly what the validation kept - nothing refused is written, nothing kept is lost, the ids reported as
+// rejected are the others
+pub open spec fn kept_nodes(ra: RoomAuthorisations, s: Seq<NodeToInsert>) -> Seq<NodeToInsert>
+    decreases s.len()
+{
+    if s.len() == 0 { Seq::empty() }
+    else if spec_validate_node(ra, s.last()) { kept_nodes(ra, s.drop_last()).push(s.last()) }
+    else { kept_nodes(ra, s.drop_last()) }
+}
+pub open spec fn rejected_nodes(ra: RoomAuthorisations, s: Seq<NodeToInsert>) -> Seq<Uid>
+    decreases s.len()
+{
+    if s.len() == 0 { Seq::empty() }
+    else if spec_validate_node(ra, s.last()) { rejected_nodes(ra, s.drop_last()) }
+    else { rejected_nodes(ra, s.drop_last()).push(s.last().id) }
+}
+proof fn lemma_nodes_step(ra: RoomAuthorisations, s: Seq<NodeToInsert>, i: int)
+    requires 0 <= i < s.len(),
+    ensures
+        kept_nodes(ra, s.subrange(0, i + 1)) == (if spec_validate_node(ra, s[i]) { kept_nodes(ra, s.subrange(0, i)).push(s[i]) } else { kept_nodes(ra, s.subrange(0, i)) }),
+        rejected_nodes(ra, s.subrange(0, i + 1)) == (if spec_validate_node(ra, s[i]) { rejected_nodes(ra, s.subrange(0, i)) } else { rejected_nodes(ra, s.subrange(0, i)).push(s[i].id) }),
+{
+    assert(s.subrange(0, i + 1).drop_last() =~= s.subrange(0, i));
+    assert(s.subrange(0, i + 1).last() == s[i]);
+}
+//@ extract src/database/authorisation_service.rs :: impl AuthorisationService / fn process_message as AuthorisationService::lifted_add_nodes_arm
+//@ lift "AuthorisationMessage::AddNodes(valid_nodes, mut invalid_node, reply) =>" :: async fn lifted_add_nodes_arm(valid_nodes: Vec<NodeToInsert>, invalid_node0: Vec<Uid>, reply: ReplySender<Result<Vec<Uid>>>, auth: &mut RoomAuthorisations, database_writer: &BufferedDatabaseWriter)
+//@ attr #[verifier::loop_isolation(false)]
+//@ insert body-start
+                let mut invalid_node = invalid_node0;   // E9: `mut invalid_node` of the match arm
+                let ghost a0 = *auth;
+//@ shell "for node in valid_nodes" => "proof { lemma_nodes_step(a0, it.seq(), it.index@ as int); } Self::add_nodes_body(&*auth, node, &mut write_nodes, &mut invalid_node);"
+//@ loop "for node in valid_nodes" iter it
+                    invariant
+                        it.seq() == valid_nodes@, *auth == a0,
+                        write_nodes@ == kept_nodes(a0, it.seq().subrange(0, it.index@ as int)),
+                        invalid_node@ == invalid_node0@ + rejected_nodes(a0, it.seq().subrange(0, it.index@ as int)),
+//@ insert before-stmt "let query = WriteMessage::Nodes("
+                proof { assert(valid_nodes@.subrange(0, valid_nodes@.len() as int) =~= valid_nodes@); }
+//@ spec
+        ensures
+            // [rows_handed_to_the_writer_are_exactly_the_validated_ones]{C02,C12} of the rows received from a peer, exactly those validate_node accepts are handed to the writer, in the order received; the ids reported as rejected are those already rejected upstream followed by the ids of the others
+            exists|w: Vec<NodeToInsert>, iv: Vec<Uid>| #[trigger] sent_to_writer(WriteMessage::Nodes(w, iv, reply)) && w@ == kept_nodes(*old(auth), valid_nodes@)
+                && iv@ == invalid_node0@ + rejected_nodes(*old(auth), valid_nodes@),
+            *final(auth) == *old(auth),
+//@ end
+
+pub open spec fn kept_edges(room: Room, s: Seq<(Edge, String)>) -> Seq<Edge>
+    decreases s.len()
+{
+    if s.len() == 0 { Seq::empty() }
+    else if edge_ok(room, s.last().0, s.last().1@) { kept_edges(room, s.drop_last()).push(s.last().0) }
+    else { kept_edges(room, s.drop_last()) }
+}
+pub open spec fn rejected_edges(room: Room, s: Seq<(Edge, String)>) -> Seq<Uid>
+    decreases s.len()
+{
+    if s.len() == 0 { Seq::empty() }
+    else if edge_ok(room, s.last().0, s.last().1@) { rejected_edges(room, s.drop_last()) }
+    else { rejected_edges(room, s.drop_last()).push(s.last().0.src) }
+}
+proof fn lemma_edges_step(room: Room, s: Seq<(Edge, String)>, i: int)
+    requires 0 <= i < s.len(),
+    ensures
+        kept_edges(room, s.subrange(0, i + 1)) == (if edge_ok(room, s[i].0, s[i].1@) { kept_edges(room, s.subrange(0, i)).push(s[i].0) } else { kept_edges(room, s.subrange(0, i)) }),
+        rejected_edges(room, s.subrange(0, i + 1)) == (if edge_ok(room, s[i].0, s[i].1@) { rejected_edges(room, s.subrange(0, i)) } else { rejected_edges(room, s.subrange(0, i)).push(s[i].0.src) }),
+{
+    assert(s.subrange(0, i + 1).drop_last() =~= s.subrange(0, i));
+    assert(s.subrange(0, i + 1).last() == s[i]);
+}
+//@ extract src/database/authorisation_service.rs :: impl AuthorisationService / fn process_message as AuthorisationService::lifted_add_edges_arm
+//@ lift "AuthorisationMessage::AddEdges(room_id, edges, mut invalid, reply) =>" :: async fn lifted_add_edges_arm(room_id: Uid, edges: Vec<(Edge, String)>, invalid0: Vec<Uid>, reply: ReplySender<Result<Vec<Uid>>>, auth: &mut RoomAuthorisations, database_writer: &BufferedDatabaseWriter)
+//@ attr #[verifier::loop_isolation(false)]
+//@ rewrite E15 "Error::UnknownRoom\(base64_encode\(&room_id\)\)" => "Error::UnknownRoom(fmt_stub())" x1
+//@ insert body-start
+                let mut invalid = invalid0;   // E9: `mut invalid` of the match arm
+//@ shell "for (edge, entity_name) in edges" => "proof { lemma_edges_step(*room, it.seq(), it.index@ as int); } Self::add_edges_body(room, edge, entity_name, &mut valid_edges, &mut invalid);"
+//@ loop "for (edge, entity_name) in edges" iter it
+                    invariant
+                        it.seq() == edges@,
+                        valid_edges@ == kept_edges(*room, it.seq().subrange(0, it.index@ as int)),
+                        invalid@ == invalid0@ + rejected_edges(*room, it.seq().subrange(0, it.index@ as int)),
+//@ insert before-stmt "let query = WriteMessage::Edges("
+                proof { assert(edges@.subrange(0, edges@.len() as int) =~= edges@); }
+//@ spec
+        ensures
+            // [references_handed_to_the_writer_are_exactly_the_entitled_ones]{C02,C12} of the references received from a peer for a room this instance holds, exactly those whose author is entitled (edge_ok) are handed to the writer, in the order received; the others are reported as rejected by their source id; for a room this instance does not hold nothing is handed to the writer
+            old(auth).rooms@.contains_key(room_id) ==> exists|w: Vec<Edge>, iv: Vec<Uid>| #[trigger] sent_to_writer(WriteMessage::Edges(w, iv, reply))
+                && w@ == kept_edges(old(auth).rooms@[room_id], edges@) && iv@ == invalid0@ + rejected_edges(old(auth).rooms@[room_id], edges@),
+            *final(auth) == *old(auth),
+//@ end
+
+//@ extract src/database/authorisation_service.rs :: impl AuthorisationService / fn process_message as AuthorisationService::lifted_delete_edges_arm
+//@ lift "AuthorisationMessage::DeleteEdges(edges, reply) =>" :: async fn lifted_delete_edges_arm(edges: Vec<(EdgeDeletionEntry, Option<Vec<u8>>)>, reply: ReplySender<Result<()>>, auth: &mut RoomAuthorisations, database_writer: &BufferedDatabaseWriter)
+//@ insert body-start
+                let ghost mut handed: Option<Seq<EdgeDeletionEntry>> = None;
+//@ insert before-stmt "let _ = database_writer" 
+                    proof { handed = Some(filtered_edges@); }
+//@ insert body-end
+                // [reference_deletions_handed_to_the_writer_are_the_entitled_ones]{C02,C12,C11} the reference-deletion records handed to the writer are exactly the entitled records of the batch (validate_edge_deletions); when none is entitled nothing is written
+                assert(match handed { Some(h) => h == kept_edge_dels(*auth, edges@) && h.len() > 0, None => kept_edge_dels(*auth, edges@).len() == 0 });
+//@ end
+//@ extract src/database/authorisation_service.rs :: impl AuthorisationService / fn process_message as AuthorisationService::lifted_delete_nodes_arm
+//@ lift "AuthorisationMessage::DeleteNodes(nodes, reply) =>" :: async fn lifted_delete_nodes_arm(nodes: HashMap<Uid, (NodeDeletionEntry, Option<Vec<u8>>)>, reply: ReplySender<Result<()>>, auth: &mut RoomAuthorisations, database_writer: &BufferedDatabaseWriter)
+//@ insert body-start
+                let ghost mut handed: Option<Seq<NodeDeletionEntry>> = None;
+                let ghost nodes0 = nodes@;
+//@ insert before-stmt "let _ = database_writer"
+                    proof { handed = Some(filtered_nodes@); }
+//@ insert body-end
+                // [row_deletions_handed_to_the_writer_are_the_entitled_ones]{C02,C12,C11} the row-deletion records handed to the writer are entitled records of the batch, and every entitled record of the batch is among them (validate_node_deletions)
+                assert(match handed {
+                    Some(h) => (forall|e: NodeDeletionEntry| #[trigger] h.contains(e) ==> entitled_node_del(*auth, nodes0, e))
+                        && (forall|id: Uid| #![trigger nodes0[id]] nodes0.contains_key(id) && node_del_ok(*auth, nodes0[id].0, nodes0[id].1) ==> h.contains(nodes0[id].0)),
+                    None => forall|id: Uid| #![trigger nodes0[id]] nodes0.contains_key(id) ==> !node_del_ok(*auth, nodes0[id].0, nodes0[id].1),
+                });
+//@ end
+
 
 // ================================================================= group mutations inside a room mutation (C01)
 #[verifier::external_body]
